@@ -894,49 +894,3 @@ Section DijkstraWF.
   Qed.
 End DijkstraWF.
 
-(* ------------------------------------------------------------------ non-vacuity *)
-Lemma Zeqb_spec : forall x y : Z, Z.eqb x y = true <-> x = y.
-Proof. exact Z.eqb_eq. Qed.
-Lemma Zltb_asym : forall x y : Z, Z.ltb x y = true -> Z.ltb y x = false.
-Proof. intros x y H. apply Z.ltb_lt in H. apply Z.ltb_ge. lia. Qed.
-Lemma Zltb_total : forall x y : Z, Z.ltb x y = false -> Z.ltb y x = false -> x = y.
-Proof. intros x y H1 H2. apply Z.ltb_ge in H1. apply Z.ltb_ge in H2. lia. Qed.
-
-(* the example graph of DijkstraModelOk.v ([ex_state]: built by the transcribed
-   constructor, i.e. by a history of add_node / add_edge calls) meets every hypothesis of
-   the end-to-end theorems: it is WF because it is reachable, it is small, its stored
-   weights are non-negative and all present, and the entry points return answers on it *)
-Example reachable_hypotheses_nonvacuous :
-  match ex_state with
-  | Ok g =>
-    reachable Z.eqb Z.ltb ex_specs g /\ WF Z.eqb Z.ltb g /\
-    small_adj g /\ weights_nonneg g /\ edges_have_weight g = true /\
-    name_at g 0 = Some 5%Z /\ In 1%Z (names g) /\
-    (exists m, single_source Z.eqb g true 5%Z (Some 1%Z) (Some (9 # 2)%Q) false true = Ok m /\ length m = 4%nat) /\
-    (exists mm, multi_source Z.eqb 1 g true [3%Z; 5%Z] None None false true = Ok mm /\ length mm = 2%nat) /\
-    (exists mm, all_pairs Z.eqb 1 g true None None false true = Ok mm /\ length mm = 4%nat)
-  | _ => False
-  end.
-Proof.
-  destruct ex_state as [g| | |] eqn:E; try (vm_compute in E; discriminate).
-  assert (R : reachable Z.eqb Z.ltb ex_specs g).
-  { apply (new_from_reachable Z.eqb Z.ltb Zeqb_spec _ _ _ _ E). }
-  split; [exact R|]. split; [apply (WF_reachable Z.eqb Z.ltb Zeqb_spec Zltb_asym Zltb_total _ _ R)|].
-  clear R. vm_compute in E. inversion E; subst g. clear E.
-  split; [vm_compute; reflexivity|]. split; [apply weights_nonneg_b_sound; vm_compute; reflexivity|].
-  split; [vm_compute; reflexivity|]. split; [vm_compute; reflexivity|]. split; [vm_compute; tauto|].
-  split; [|split]; vm_compute; eexists; split; reflexivity.
-Qed.
-
-(* why multi_source / all_pairs need non-negative weights for totality: they unwrap the
-   per-source Result, so the ContradictoryPaths of a negative-weight graph is a panic
-   there, while single_source returns it as an Err *)
-Example negative_weights_panic :
-  match ex_neg with
-  | Ok g =>
-    single_source Z.eqb g true 1%Z None None false true = Err ContradictoryPaths /\
-    multi_source Z.eqb 1 g true [1%Z] None None false true = Panic "dijkstra.rs:376" /\
-    all_pairs Z.eqb 1 g true None None false true = Panic "dijkstra.rs:172"
-  | _ => False
-  end.
-Proof. vm_compute. repeat split. Qed.
